@@ -227,6 +227,7 @@ package dmap
 // handed to the replication routines). S below is the storage of the fragment the write lands in.
 //@ func (dm *DMap) putOnCluster(e *env) error
 //@   props C09 C10 C04 C08
+//@   atcall dmap\.DMap\)\.(checkPutConditions|putEntryOnFragment|syncPutOnCluster|asyncPutOnCluster)$ requires #condition_and_write_in_one_critical_section [C08]: e.fragment != nil && e.fragment.wheld
 //@   requires #lru_samples: dm.config != nil ==> dm.config.lruSamples >= 1
 //@   flag clock
 //@   flag termination
@@ -268,7 +269,7 @@ package dmap
 //@                (!pre(e.fragment.storage.has)[e.hkey] || deadAt(pre(e.fragment.storage.ttl)[e.hkey], old(now()))) ==>
 //@                result != nil && e.fragment.storage.has == pre(e.fragment.storage.has) && e.fragment.storage.val == pre(e.fragment.storage.val) &&
 //@                e.fragment.storage.ttl == pre(e.fragment.storage.ttl)
-//@   modifies net_acks, e.fragment, e.timeout, e.value, EvictedTotal.counter, EntriesTotal.counter, DeleteHits.counter, GetMisses.counter, every(e.fragment.storage.has), every(e.fragment.storage.key),
+//@   modifies every(e.fragment.wheld), net_acks, e.fragment, e.timeout, e.value, EvictedTotal.counter, EntriesTotal.counter, DeleteHits.counter, GetMisses.counter, every(e.fragment.storage.has), every(e.fragment.storage.key),
 //@            every(e.fragment.storage.val), every(e.fragment.storage.ttl), every(e.fragment.storage.ts), every(e.fragment.storage.la),
 //@            every(e.fragment.storage.count), every(e.fragment.storage.inuse)
 
